@@ -284,6 +284,10 @@ def handle (ss : Session) : P (Session × String) := do
       | .cycle p => "cycle " ++ sList p
       | .error .assertion => "AssertionError"
       | .error .fuel => "nonterminating")
+  | "w.cychyp" => do
+    -- the hypotheses of `C06.accept_complete`, evaluated on the tables `connect` built
+    let sims := ss.world.sims
+    pure (ss, s!"shaped={shapedB sims} nodup={nodupKeysB sims} const={constCutoffB sims}")
   | "w.anc" => do
     let orc ← listOf nat
     match cacheTriggeringAncestors ss.world.sims orc with
